@@ -24,7 +24,7 @@ EXPLANATION = (
     "fmt_chksum ladder `>99→0, >9→1, else 2` into a '000' buffer; R02.4 BaseField::encode: itoa(tag) ≺ '=' ≺ print ≺ SOH; R02.5 "
     "MessageBase::encode iterates _pos (multimap<position, field>) and all five add_field bodies insert {pos, field}; groups: count field "
     "then encode_group over _msgs in order; R02.6 the routine that computes the CheckSum (Message::calc_chksum) satisfies the range, stride and "
-    "carry-bookkeeping rules of C07; R02.7 Message::encode(f8String&) assigns (pointer, length returned by encode(char**)); R02.8 copy_legal/move_legal never hand the target a position taken from the source's trait; R02.9 the scratch array of the string overload has automatic storage. NOT decided: group count vs. element count, values.")
+    "carry-bookkeeping rules of C07; R02.7 Message::encode(f8String&) assigns (pointer, length returned by encode(char**)); R02.8 copy_legal/move_legal never hand the target a position taken from the source's trait; R02.9 the scratch array of the string overload has automatic storage; R02.10 the suppress bit is only ever set for tags 8, 9, 10 (the fields Message::encode emits itself). NOT decided: group count vs. element count, values.")
 
 M = 'FIX8::Message::'
 MB = 'FIX8::MessageBase::'
@@ -329,6 +329,28 @@ def run(ctx):
     scratch_buffer_rule(ctx, prog, 'R02.9')
     # R02.6 the CheckSum field is computed by Message::calc_chksum: range, stride and carry bookkeeping rules of C07 apply
     c07.rules(ctx, prog, rid='R02.6')
+    # ---------------- R02.10 `suppress` keeps a field out of the section encoders because Message::encode emits it itself: exactly BeginString(8),
+    # BodyLength(9) and CheckSum(10).  Every place that sets the bit names one of these three by its constant tag; a setter that picks fields by another
+    # trait (e.g. `automatic`, which MsgType carries too) keeps a field off the wire that nobody else emits.
+    own_emits = {8, 9, 10}
+    n_sup = 0
+    for g in prog.all_functions():
+        if 'cfg' not in g.raw or g.tmpl == 'pattern':
+            continue
+        for c in g.calls():
+            if c.callee is None or c.callee.get('n') != 'set' or not c.args:
+                continue
+            if not any(x.k == 'DeclRefExpr' and x.decl is not None and x.decl.get('n') == 'suppress' for a in c.args for x in a.walk()):
+                continue
+            n_sup += 1
+            tagv = c.args[0].strip(casts=True).value if c.callee_qp == 'FIX8::FieldTraits::set' and len(c.args) >= 2 else None
+            ctx.check(tagv in own_emits, 'R02.10', g.qp + '#suppress-only-own-emits@%d' % c.line, c.loc,
+                      'suppress is set for tag %s, which Message::encode emits itself' % tagv,
+                      '`%s` sets the suppress bit %s: only BeginString, BodyLength and CheckSum are emitted by Message::encode itself — any other suppressed field '
+                      '(MsgType is `automatic` too) silently disappears from every later encoding of the object' %
+                      (c.text()[:70], 'for tag %s' % tagv if tagv is not None else 'on a field chosen at run time'))
+    ctx.need(n_sup >= 1, 'no site setting the suppress bit found')
+    ctx.floor('R02.10', 3)
     ctx.floor('R02.6', 8)
     ctx.floor('R02.1', 12)
     ctx.floor('R02.2', 8)
